@@ -695,6 +695,9 @@ func (c *Client) readResponseTagged(tag, typ string) (startTLS *startTLSCommand,
 			if !c.dec.ExpectSP() || !c.dec.ExpectNumber(&uidValidity) || !c.dec.ExpectSP() || !c.dec.ExpectUID(&uid) {
 				return nil, fmt.Errorf("in resp-code-apnd: %v", c.dec.Err())
 			}
+			if uid == 0 {
+				return nil, fmt.Errorf("in resp-code-apnd: invalid UID 0")
+			}
 			if cmd, ok := cmd.(*AppendCommand); ok {
 				cmd.data.UID = uid
 				cmd.data.UIDValidity = uidValidity
